@@ -21,4 +21,74 @@ theorem toNat_pos_of_ne_zero (a : UInt64) (h : a ≠ 0) : 0 < a.toNat := by
   · exact absurd (UInt64.toNat_inj.mp (by rw [h0]; rfl)) h
   · exact h0
 
+theorem beq_toNat (a b : UInt64) : (a == b) = (a.toNat == b.toNat) := by
+  by_cases h : a = b
+  · subst h; simp
+  · have : a.toNat ≠ b.toNat := fun e => h (UInt64.toNat_inj.mp e)
+    have h1 : (a == b) = false := by simpa using h
+    have h2 : (a.toNat == b.toNat) = false := by simpa using this
+    rw [h1, h2]
+
+theorem bne_toNat (a b : UInt64) : (a != b) = (a.toNat != b.toNat) := by
+  unfold bne; rw [beq_toNat]
+
+open Zrnt.Gen.GoFuns in
+/-- Go: `s, _ := spec.EpochStartSlot(e)` is `e * SLOTS_PER_EPOCH` when that fits 64 bits -/
+theorem epochStartSlotOr0_toNat (spe e : UInt64) (hspe : spe ≠ 0) (hov : e.toNat * spe.toNat < 2 ^ 64) :
+    (epochStartSlotOr0 spe e).toNat = e.toNat * spe.toNat := by
+  have hpos := toNat_pos_of_ne_zero spe hspe
+  unfold epochStartSlotOr0 EpochStartSlot SlotToEpoch specOf Res.udiv
+  have hmul : (e * spe).toNat = e.toNat * spe.toNat := by
+    rw [UInt64.toNat_mul]; exact Nat.mod_eq_of_lt hov
+  have hdiv : e * spe / spe = e := by
+    apply UInt64.toNat_inj.mp
+    rw [UInt64.toNat_div, hmul, Nat.mul_div_cancel _ hpos]
+  simp [hspe, hdiv, hmul]
+
+open Zrnt.Gen.GoFuns in
+/-- `spec.EpochStartSlot(e)` succeeds exactly when `e * SLOTS_PER_EPOCH` fits 64 bits -/
+theorem epochStartSlot_ok_iff (spe e : UInt64) (hspe : spe ≠ 0) :
+    (∃ s, EpochStartSlot (specOf spe) e = .ok s) ↔ e.toNat * spe.toNat < 2 ^ 64 := by
+  have hpos := toNat_pos_of_ne_zero spe hspe
+  unfold EpochStartSlot SlotToEpoch specOf Res.udiv
+  simp only [hspe, if_false, Res.bind_ok]
+  constructor
+  · rintro ⟨s, hs⟩
+    by_cases hne : e = e * spe / spe
+    · -- no wrap: (e*spe mod 2^64)/spe = e forces e*spe < 2^64
+      have h1 := congrArg UInt64.toNat hne
+      rw [UInt64.toNat_div, UInt64.toNat_mul] at h1
+      rcases Nat.lt_or_ge (e.toNat * spe.toNat) (2 ^ 64) with h | h
+      · exact h
+      · exfalso
+        have hlt : e.toNat * spe.toNat % 2 ^ 64 < e.toNat * spe.toNat := by
+          have := Nat.mod_lt (e.toNat * spe.toNat) (by decide : 0 < 2 ^ 64); omega
+        have : e.toNat * spe.toNat % 2 ^ 64 / spe.toNat < e.toNat := by
+          apply Nat.div_lt_of_lt_mul; rw [Nat.mul_comm spe.toNat e.toNat]; exact hlt
+        omega
+    · simp [hne] at hs
+  · intro hov
+    have hmul : (e * spe).toNat = e.toNat * spe.toNat := by
+      rw [UInt64.toNat_mul]; exact Nat.mod_eq_of_lt hov
+    have hdiv : e * spe / spe = e := by
+      apply UInt64.toNat_inj.mp
+      rw [UInt64.toNat_div, hmul, Nat.mul_div_cancel _ hpos]
+    exact ⟨e * spe, by simp [hdiv]⟩
+
+theorem allHold_mem {cs : List Cond} (h : allHold cs = true) {c : Cond} (hc : c ∈ cs) : c.holds = true := by
+  unfold allHold at h
+  exact (List.all_eq_true.mp h) c hc
+
+end Zrnt.Proofs.GossipLemmas
+
+namespace Zrnt.Proofs.GossipLemmas
+open Zrnt Zrnt.Gossip
+
+/-- normal form for the C12 case analyses: unfold verdict constructors and the condition-list combinators,
+turn every `UInt64` comparison into a `Nat` comparison -/
+macro "gossip_norm" : tactic => `(tactic|
+  simp (config := {zetaDelta := true}) only [ign, rej, acc, allHold, onlyTimingFails, Spec.I, Spec.R, Spec.L,
+    List.all_cons, List.all_nil, ge_iff_le, gt_iff_lt, UInt64.lt_iff_toNat_lt, UInt64.le_iff_toNat_le,
+    beq_toNat, bne_toNat, Spec.startSlot, Spec.epochAt, epochOf, UInt64.toNat_div] at *)
+
 end Zrnt.Proofs.GossipLemmas
